@@ -356,3 +356,10 @@ package linker
 // file name may contain `"`, `\` or control characters. (The other path-substitution closure of this function feeds JS/CSS
 // text and returns pathBetweenChunks.)
 //@ flow metafile-paths-are-json-escaped C19: func=(*linkerContext).generateChunksInParallel ; in=linker ; site=returns generateChunksInParallel$* ; scenario=metafile_quote_in_path ; retpath=0:call pathBetweenChunks(*) OR *call QuoteForJSON(*
+
+// C16 (no internal error): the linker turns every top-level key of a JSON file (and every local class name of a CSS
+// module) into a top-level SYMBOL named after the key. A symbol name with a non-BMP code point cannot be printed when the
+// output must be ASCII and the target has no \u{...} escapes (the printer panics "Cannot encode identifier"); the
+// parser's representability check never sees these names. Such a key must not become a symbol (it stays reachable
+// through the default export, where it is printed as a string).
+//@ guarded lazy-export-names-are-representable C16: func=(*linkerContext).generateCodeForLazyExport ; in=linker ; site=call generateExport ; only-under=true:*.Key.Data.(EString) ; scenario=json_nonbmp_key ; require-any=false:c.options.ASCIIOnly || false:call Has(c.options.UnsupportedJSFeatures,*) || false:call ContainsNonBMPCodePointUTF16(*)
